@@ -199,12 +199,12 @@ def decide_build(pid, spec, b, tier, oc, seed):
     wide = units.BUILDS[bname].get('usize_bytes', 8) != 8
     # `global size_of usize == 4` is checked by rustc's final erasure pass against the 64-bit HOST: skip that pass only
     xtra = ['--no-erasure-check'] if wide else None
-    r = vrun.run_verus(path, modules=mods, threads=int(os.environ.get('VERIF_THREADS', '8')), extra=xtra)
+    r = vrun.run_verus(path, modules=mods, threads=int(os.environ.get('VERIF_THREADS', '4')), extra=xtra)
     oc.cmds.append(r.cmd)
     a = vrun.analyse(text, regions, r)
     if any(e['kind'] == 'rlimit' for e in a['errors']) or (r.json is None and 'imeout' in (r.raw_stderr or '')):
         # resource-limit hits are load-dependent: retry once with a larger budget before calling it undecided
-        r2 = vrun.run_verus(path, modules=mods, threads=int(os.environ.get('VERIF_THREADS', '8')), extra=xtra, rlimit=40)
+        r2 = vrun.run_verus(path, modules=mods, threads=int(os.environ.get('VERIF_THREADS', '4')), extra=xtra, rlimit=40)
         a2 = vrun.analyse(text, regions, r2)
         if r2.json is not None and len(a2['errors']) <= len(a['errors']):
             oc.notes.append('%s: rlimit hit on first run, retried with --rlimit 40' % bname)
@@ -309,7 +309,7 @@ def decide_build(pid, spec, b, tier, oc, seed):
         if expected:
             cpath = os.path.join(WORK, '%s_%s_canary.rs' % (pid, bname))
             open(cpath, 'w').write(ctext)
-            cr = vrun.run_verus(cpath, modules=b.get('modules'), threads=int(os.environ.get('VERIF_THREADS', '8')),
+            cr = vrun.run_verus(cpath, modules=b.get('modules'), threads=int(os.environ.get('VERIF_THREADS', '4')),
                                 multiple_errors=1, extra=xtra)
             ca = vrun.analyse(ctext, regions, cr)
             failed_lines = set()
@@ -394,7 +394,7 @@ def main():
     oc = Outcome()
     from concurrent.futures import ThreadPoolExecutor
     subs = [Outcome() for _ in spec['builds']]
-    with ThreadPoolExecutor(max_workers=int(os.environ.get('VERIF_BUILD_JOBS', '3'))) as ex:
+    with ThreadPoolExecutor(max_workers=int(os.environ.get('VERIF_BUILD_JOBS', '5'))) as ex:
         futs = [ex.submit(decide_build, pid, spec, b, tier, so, seed) for b, so in zip(spec['builds'], subs)]
         for f in futs:
             f.result()
